@@ -44,7 +44,15 @@ def e2e(case):
         return ":trafo-callback" if hit else ""
 
     def observe(ps, phase, info):
-        if phase == "after_set_load":
+        if phase == "iteration_start":
+            # a new Monte Carlo iteration on the same object: every cumulative quantity starts from zero
+            for k in ("acc", "sum", "dem", "netacc"):
+                st[k] = {}
+            consumed.clear()
+            for obj in list(ps.buses) + list(ps.child_network_list) + [ps]:
+                if obj.acc_p_energy_shed != 0 or obj.acc_q_energy_shed != 0:
+                    viols.append(("e2e.iteration-start", f"iteration {info['it']} starts with {obj.name} holding cumulative energy not supplied {obj.acc_p_energy_shed} / {obj.acc_q_energy_shed} (nothing demanded yet)"))
+        elif phase == "after_set_load":
             st["p0"] = {b.name: (b.pload, b.qload) for b in ps.buses}
             st["trafo_before"] = {b.name: b.trafo_failed for b in ps.buses}
         elif phase == "before_log":
@@ -102,7 +110,7 @@ def run(res):
     res.rule = ("kernel: op sequences on real Bus objects (exact); end-to-end: built feeders (ties, microgrids with batteries) with injected line and "
                 "transformer faults, stacks/accumulators observed before and after update_sequence_history of every logged increment. "
                 "non-trivial = distinct (logged, number of increments with shedding, transformer fault injected) / kernel signatures")
-    cases = acct.gen_kernel(rng, nk) + acct.gen_e2e(rng, ne)
+    cases = acct.gen_kernel(rng, nk) + acct.gen_e2e(rng, ne, repeat=True)
     run_cases(res, cases, handler)
 
 
